@@ -690,7 +690,27 @@ impl StateArea {
     }
 
     /// a small adversarial mutation of the current state (C06)
-    fn g_mutation(&self, rng: &mut Rng, sh: &mut Shadow) -> String {
+    fn g_mutation(&self, rng: &mut Rng, sh: &mut Shadow) -> Vec<String> {
+        // a frontend that differs only in tags / cluster / policies (same route key)
+        if !sh.fronts.is_empty() && rng.chance(1, 4) {
+            let i = rng.below(sh.fronts.len() as u64) as usize;
+            let old = sh.fronts[i].clone();
+            let (h, f) = old.split_once(' ').unwrap();
+            let mut w: Vec<String> = f.split(' ').map(|x| x.to_string()).collect();
+            match rng.below(3) {
+                0 => w[7] = ((w[7].parse::<u64>().unwrap_or(0) + 1) % 3).to_string(),
+                1 => w[8] = ((w[8].parse::<u64>().unwrap_or(0) + 1) % 3).to_string(),
+                _ => w[0] = if w[0] == "-" { "1".into() } else { "-".into() },
+            }
+            let newf = w.join(" ");
+            sh.fronts[i] = format!("{h} {newf}");
+            let (rm, add) = if h == "1" { ("rmhttpsf", "addhttpsf") } else { ("rmhttpf", "addhttpf") };
+            return vec![format!("{rm} {f}"), format!("{add} {newf}")];
+        }
+        vec![self.g_mutation1(rng, sh)]
+    }
+
+    fn g_mutation1(&self, rng: &mut Rng, sh: &mut Shadow) -> String {
         let bs: Vec<_> = sh.backends.iter().cloned().collect();
         let k = rng.below(10);
         if k < 3 && !bs.is_empty() {
@@ -803,7 +823,7 @@ impl Area for StateArea {
                 if rng.chance(1, 2) {
                     ops.push("mark".into());
                     for _ in 0..rng.range(1, 4) {
-                        ops.push(self.g_mutation(rng, &mut sh));
+                        ops.extend(self.g_mutation(rng, &mut sh));
                     }
                 } else {
                     ops.push("markreset".into());
